@@ -100,6 +100,7 @@ def checkSqlr : P String := do
   | _, _ => corr := "fail:status"
   let hasNull := rows.any (fun r => r.any (· == .nil))
   let nontriv := status == "ok" && rows.length ≥ 2 && hasNull
-  pure s!"c14={c14} corr={corr} nontrivial={if nontriv then 1 else 0} st_handler={hk} st_entry={entry} st_status={status}"
+  let c20 := if status == "panic" then "fail:panic" else "ok"
+  pure s!"c14={c14} c20={c20} corr={corr} nontrivial={if nontriv then 1 else 0} st_handler={hk} st_entry={entry} st_status={status}"
 
 end Goframe.Driver
